@@ -1,10 +1,26 @@
 (* C02: every exported incremental sub-parser resumes transparently.
-   The schedule theorem is parser independent; per parser it needs the one-step
-   property ExtOK (Proofs/Resume.v).  PARTIAL: see the instances below. *)
-From Sipsp Require Import Harness Resume.
+   The schedule theorem is parser independent (first theorem); per parser it needs the
+   one-step property ExtOK.  PARTIAL: ExtOK is proved for SkipQuoted, ParseCallIDVal and
+   ParseUIntVal / ParseExpiresVal (theorems 2-4: every buffer, start offset, object state and
+   chunk schedule); for the other twelve entry points the schedule theorem is conditional and
+   the correspondence run + the resume oracle carry the property. *)
+From Sipsp Require Import Harness Resume Ext ExtLeaf.
 Theorem C02_every_schedule_from_one_step :
   forall (S : Type) (P : list byte -> N -> S -> res S) (obs : S -> list Z) (Inv : N -> S -> Prop),
   ExtOK P obs Inv ->
   forall b k s0 cuts, Inv k s0 -> k <= nnat (length b) -> sorted_from (N.to_nat k) cuts ->
     agrees P obs b cuts (chunked_trace P b cuts k s0) k s0.
 Proof. exact (fun S P obs Inv => resume_schedule P obs Inv). Qed.
+
+Theorem C02_skip_quoted : forall b k cuts, k <= nnat (length b) -> sorted_from (N.to_nat k) cuts ->
+  agrees (fun b o (_ : unit) => skip_quoted b o) (fun _ => []) b cuts
+         (chunked_trace (fun b o (_ : unit) => skip_quoted b o) b cuts k tt) k tt.
+Proof. exact (fun b k cuts => resume_schedule _ _ _ quoted_ExtOK b k tt cuts I). Qed.
+
+Theorem C02_callid : forall b k s0 cuts, k <= nnat (length b) -> sorted_from (N.to_nat k) cuts ->
+  agrees parse_callid obs_callid b cuts (chunked_trace parse_callid b cuts k s0) k s0.
+Proof. exact (fun b k s0 cuts => resume_schedule _ _ _ callid_ExtOK b k s0 cuts I). Qed.
+
+Theorem C02_uint_expires : forall b k s0 cuts, k <= nnat (length b) -> sorted_from (N.to_nat k) cuts ->
+  agrees parse_uint obs_uint b cuts (chunked_trace parse_uint b cuts k s0) k s0.
+Proof. exact (fun b k s0 cuts => resume_schedule _ _ _ uint_ExtOK b k s0 cuts I). Qed.
